@@ -30,6 +30,11 @@ func init() {
 	}
 }
 
+// names that are keywords of the Swagger / JSON-schema grammar: legal as definition and property names (they are map
+// keys), and a trap for code that recognises the parts of a JSON pointer by their spelling
+var keywordNames = []string{"properties", "items", "allOf", "definitions", "parameters", "responses", "schema",
+	"additionalProperties", "additionalItems", "paths", "get", "default", "200", "headers", "body"}
+
 var plainProps = []string{"id", "name", "owner", "tags", "kind", "value", "next", "items", "data", "meta", "count", "child", "parent", "status",
 	"idx", "names", "metadata", "kinds"}
 
@@ -164,6 +169,7 @@ func genBundle(r *R, opts FlatOpts, plus bool, thorough bool, force map[string]b
 	flag("opMedia", 35)
 	flag("paramEnums", 35)
 	flag("mangleTwins", 15)
+	flag("keywordNames", 12)
 	naux := 0
 	switch x := r.Intn(10); {
 	case x < 2:
@@ -410,7 +416,9 @@ func (g *bundleGen) assemble(d *gDoc) obj {
 func (g *bundleGen) freshName(used map[string]bool, exotic bool) string {
 	for try := 0; try < 50; try++ {
 		var n string
-		if exotic && g.r.P(60) {
+		if g.on("keywordNames") && g.r.P(35) {
+			n = g.r.Pick(keywordNames)
+		} else if exotic && g.r.P(60) {
 			n = g.r.Pick(exoticNames)
 		} else {
 			n = g.r.Pick(plainNames)
@@ -545,7 +553,9 @@ func contains(xs []string, s string) bool {
 func (g *bundleGen) propName(used map[string]bool) string {
 	for try := 0; try < 30; try++ {
 		var n string
-		if g.on("exoticPropNames") && g.r.P(40) {
+		if g.on("keywordNames") && g.r.P(35) {
+			n = g.r.Pick(keywordNames)
+		} else if g.on("exoticPropNames") && g.r.P(40) {
 			n = g.r.Pick(exoticNames)
 		} else {
 			n = g.r.Pick(plainProps)
@@ -1593,6 +1603,11 @@ func (g *bundleGen) plantMangleTwins() {
 	}})
 	g.addRootDef(second, obj{"type": "object", "properties": obj{"again": deepCopy(ref)}})
 	g.addRootOp("/mangled", obj{"$ref": mkRef("", "definitions", holder)})
+	if g.on("anonPtr") && r.P(30) {
+		// anonymous pointers to both twins (direct sub-schemas of a root definition)
+		g.addRootOp("/twinptr0", obj{"$ref": mkRef("", "definitions", holder, "properties", pr[0])})
+		g.addRootOp("/twinptr1", obj{"$ref": mkRef("", "definitions", holder, "properties", pr[1])})
+	}
 	if r.P(60) {
 		g.addRootOp("/mangled2", obj{"$ref": mkRef("", "definitions", second)})
 	}
